@@ -44,7 +44,8 @@ pub fn domain(letter: char, p: Profile) -> Vec<Vec<u8>> {
         'K' => s(&["k1", "k2"]),
         'V' => s(&["a", "10", ""]),
         'I' => s(&["0", "1", "-1", "9223372036854775807", "-9223372036854775808", "x"]),
-        'F' => s(&["1", "-1.5", "inf", "nan", "x"]),
+        // 1.7e308: finite, and twice it is not
+        'F' => s(&["1", "-1.5", "inf", "nan", "x", "1.7e308"]),
         'X' => s(&["0", "1", "-1", "-100", "100"]),
         // members / fields: two ordinary ones and one that is not valid UTF-8
         'M' => vec![b"a".to_vec(), b"b".to_vec(), b"\xff\xfe".to_vec()],
